@@ -168,6 +168,18 @@ CLAIMED["C10"] = ("proof",
     "Trusted: as C09. 'Derived from the current time' is checked by the harness's clock-window oracle; in the model the clock reading is an arbitrary label parameter.",
     "machine-checked invariants in Coq over all interleavings + trace validation of the real client")
 
+CLAIMED["C19"] = ("proof",
+    "A verified reachability checker in Coq (Misc/Taint.v: worklist reachability proved sound and complete; secrets_ok decided exactly: secrets_ok = true <-> the graph is "
+    "well-formed and for each of the four secrets - nonce, new_nonce, DH exponent, SRP ephemeral - no math/rand, time or Seed node flows into it and a crypto/rand node does) "
+    "applied to the value-flow graph that a translator regenerates from the current source with go/ssa on every run (Inst/C19i.v by vm_compute). When the instance breaks the "
+    "check prints the offending path (file:line per node) and a dynamic witness against the real code (identical values after identical math/rand.Seed; the DH exponent "
+    "recovered from a clock reading); the dynamic probe also runs when the proof passes, as a cross-check of the translator.",
+    "DESIGN.md section 8 (C19)",
+    "Trusted: Coq kernel; the translator harness/flowgraph (node/edge construction over SSA, CHA call graph, classification of packages by import path, ~60 leaf contracts for "
+    "std-lib functions that do not write their arguments, the four anchors). Over-approximate except three documented gaps (references parked in slice/map elements, "
+    "reflect/unsafe writes, control dependence).",
+    "verified graph checker in Coq + translator regenerating the flow graph from source + dynamic witness")
+
 PENDING_REASON = "check not built yet in this round (machinery under construction; see DESIGN.md section 9 order of work)"
 
 
